@@ -277,6 +277,10 @@ def monitor (pid : String) (c0 a : List String) : String :=
           else if xp.startsWith "R:" then
             (if rcpts == [parseRcptOpts ((xp.drop 2).toString)] then []
              else ["C11 the backend's Rcpt did not receive exactly the option values that were sent (or was not called exactly once)"])
+          else if xp.startsWith "M?:" then
+            -- a value the server is free to refuse (a SIZE beyond what it can represent): refused before the backend, or delivered exactly
+            (if (mails.isEmpty && any5) || mails == [parseMailOpts ((xp.drop 3).toString)] then []
+             else ["C11 a MAIL parameter value was neither refused with 5xx before the backend nor delivered to it exactly"])
           else if xp == "REFUSED:M" then
             (if mails.isEmpty && any5 then [] else ["C11 a MAIL line with a faulty or disabled parameter was not refused with 5xx before the backend"])
           else if xp == "REFUSED:R" then
